@@ -13,7 +13,7 @@ DSL_OPS = '{"+","-","*","/","**","%",">","<","<=",">=","==","!="}'
 XMILE_OPS = '{"+","-","*","/","**","%",">","<","<=",">=","==","!="}'
 
 
-def family(fam, binops=DSL_OPS, fn1='{"abs","sqrt","round","exp","factorial"}', fn2='{"min","max"}', cache=True, timeout=3000, mod_nonneg=False):
+def family(fam, binops=DSL_OPS, fn1='{"abs","sqrt","round","exp","factorial","runspec"}', fn2='{"min","max","combinations","permutations"}', cache=True, timeout=3000, mod_nonneg=False):
     consts = dict(ModNonNeg="TRUE" if mod_nonneg else "FALSE", Envs=ENVS_TLA, Family='"%s"' % fam, BinOps=binops, Fn1=fn1, Fn2=fn2)
     h = hashlib.sha256()
     for fn in ("Expr.tla", "Rat.tla"):
